@@ -12,7 +12,7 @@
    show that the hypotheses never exclude a state or a store answer. *)
 From Coq Require Import List NArith ZArith Bool Lia.
 From Verif Require Import Locks.Model Locks.ProofsBase Locks.ProofsInv Locks.ProofsCommit Locks.ProofsLock
-  Locks.ProofsLockAgg Locks.ProofsLockAll Locks.ProofsMain Locks.ProofsKA Locks.ProofsSched Locks.ProofsPrim.
+  Locks.ProofsLockAgg Locks.ProofsLockAll Locks.ProofsMain Locks.ProofsKA Locks.ProofsSched Locks.ProofsPrim Locks.ProofsEarly.
 Import ListNotations.
 Open Scope N_scope.
 
@@ -170,8 +170,8 @@ Proof. exact late_rollback_spares_newer. Qed.
 Print Assumptions C06_late_rollback_spares_newer_locks.
 
 Definition late_rollback_run : list ev :=
-  [ELock [1; 2] false false false 10 (mkLO false false [1] [] 0 (Some FNoWait));
-   ELock [1; 2] false false false 20 (mkLO false false [1; 2] [] 0 None);
+  [ELock [1; 2] false false false 10 (mkLO false [1] [] 0 (Some FNoWait));
+   ELock [1; 2] false false false 20 (mkLO false [1; 2] [] 0 None);
    ERun 0].
 Example C06_late_rollback_after_retry :
   wf_run (init true) late_rollback_run /\
@@ -197,9 +197,9 @@ Print Assumptions C06_keepalive_bound_to_primary.
 (* non-vacuity: a run through a retry window (keep-alive kept on the given-up primary 1, then moved to the
    new primary 2), a lock-only-if-exists miss that drops the tentative primary, and the end of the transaction *)
 Definition keepalive_run : list ev :=
-  [ELock [7] true false true 5 (mkLO false false [] [7] 0 None);
-   EAggStart; ELock [1] false false false 10 (mkLO false false [1] [] 0 None); EAggRetry;
-   ELock [2] false false false 20 (mkLO false false [2] [] 0 None); EAggDone; ERun 0; ECommit (mkCO M1PC [] [] [] COk)].
+  [ELock [7] true false true 5 (mkLO false [] [7] 0 None);
+   EAggStart; ELock [1] false false false 10 (mkLO false [1] [] 0 None); EAggRetry;
+   ELock [2] false false false 20 (mkLO false [2] [] 0 None); EAggDone; ERun 0; ECommit (mkCO M1PC [] [] [] COk)].
 Example C06_keepalive_run :
   wf_run_ts (init true) keepalive_run /\
   ka (run (init true) (firstn 1 keepalive_run)) = KUninit /\
@@ -232,7 +232,7 @@ Example C06_primary_tracked_examples :
   (let s := run (init true) (firstn 3 keepalive_run) in primary s = Some 1 /\ flags s = [] /\ in_cur s 1 = true) /\
   (let s := run (init true) (firstn 6 keepalive_run) in primary s = Some 2 /\ flags s = [2]) /\
   (* a first lock that fails outright leaves no primary *)
-  primary (run (init true) [ELock [1] false false false 10 (mkLO false false [] [] 0 (Some FConflict))]) = None.
+  primary (run (init true) [ELock [1] false false false 10 (mkLO false [] [] 0 (Some FConflict))]) = None.
 Proof. vm_compute. auto 10. Qed.
 
 
@@ -242,7 +242,7 @@ Proof. vm_compute. auto 10. Qed.
    (instance of C06_failed_lockkeys_releases_call; seeded change C06-7 skips the rollback when one region
    served all batches) *)
 Definition partial_batches_run : list ev :=
-  [ELock [1; 2; 3] false false false 10 (mkLO false false [1; 2] [] 0 (Some FConflict)); ERollback; ERun 0].
+  [ELock [1; 2; 3] false false false 10 (mkLO false [1; 2] [] 0 (Some FConflict)); ERollback; ERun 0].
 Example C06_partial_batches_in_one_region :
   wf_run (init true) partial_batches_run /\
   (let s := run (init true) (firstn 1 partial_batches_run) in
@@ -264,7 +264,7 @@ Print Assumptions C06_leftover_only_under_unfinished_release.
 
 (* a rollback lost for good on key 2 (its batch never completes) while the batch of key 1 completes *)
 Definition lost_release_run2 : list ev :=
-  [ELock [1; 2; 3] false false false 10 (mkLO false false [1; 2] [] 0 (Some FNoWait)); ERunSome 0 [1]; ERollback].
+  [ELock [1; 2; 3] false false false 10 (mkLO false [1; 2] [] 0 (Some FNoWait)); ERunSome 0 [1]; ERollback].
 Example C06_lost_release :
   wf_run (init true) lost_release_run2 /\
   let s := run (init true) lost_release_run2 in
@@ -274,7 +274,7 @@ Proof. split; [wf_solve|]. vm_compute. auto. Qed.
 
 (* Rollback whose own (synchronous) release request for key 2 never completed *)
 Example C06_rollback_with_lost_release :
-  let evs := [ELock [1; 2] false false false 10 (mkLO false false [1; 2] [] 0 None); ERollbackLost [2]] in
+  let evs := [ELock [1; 2] false false false 10 (mkLO false [1; 2] [] 0 None); ERollbackLost [2]] in
   wf_run (init true) evs /\
   let s := run (init true) evs in
   valid s = false /\ store s = [(2, Pess 10)] /\ tasks s = [TPessRb [2] 10] /\ store (run (init true) (evs ++ [ERun 0])) = [].
@@ -305,16 +305,16 @@ Example C06_schedules_of_one_call :
 Proof. vm_compute. auto. Qed.
 
 (* ---- regression replays of the fixed findings F19 / F19b ---- *)
-Definition ok_lock (ks : list key) : lock_out := mkLO false false ks [] 0 None.
+Definition ok_lock (ks : list key) : lock_out := mkLO false ks [] 0 None.
 
 (* F19: the re-lock of a previous-attempt key fails with key-exists (PresumeKeyNotExists set in between) *)
 Definition f19_run : list ev :=
   [EAggStart; ELock [1] false false false 10 (ok_lock [1]); EInsert 1; EAggRetry;
-   ELock [1] true false false 20 (mkLO false false [] [] 0 (Some FExists)); EAggDone; ERollback; ERun 0].
+   ELock [1] true false false 20 (mkLO false [] [] 0 (Some FExists)); EAggDone; ERollback; ERun 0].
 (* F19b: the re-lock with lock-only-if-exists reports the key absent *)
 Definition f19b_run : list ev :=
   [EAggStart; ELock [4] false false false 10 (ok_lock [4]); EAggRetry;
-   ELock [4] true false true 20 (mkLO false false [] [4] 0 None); EAggDone; ERollback; ERun 0].
+   ELock [4] true false true 20 (mkLO false [] [4] 0 None); EAggDone; ERollback; ERun 0].
 
 Example C06_f19_regression :
   wf_run (init true) f19_run /\
@@ -352,9 +352,9 @@ Proof. split; [wf_solve|]. split; [wf_solve|]. vm_compute. auto. Qed.
 (* ---- non-vacuity: the hypotheses are satisfiable, and what goes wrong without them ---- *)
 (* a partial LockKeys failure, a write conflict, an aggressive retry dropping a lock, a failed commit *)
 Definition sample_run : list ev :=
-  [ELock [1; 2; 3] false false false 10 (mkLO false false [1; 2] [] 0 (Some FNoWait));
-   ELock [2] false false false 11 (mkLO false false [] [] 0 (Some FConflict));
-   EAggStart; ELock [4] false false false 12 (ok_lock [4]); ELock [5] false false false 13 (mkLO false false [5] [] 15 None);
+  [ELock [1; 2; 3] false false false 10 (mkLO false [1; 2] [] 0 (Some FNoWait));
+   ELock [2] false false false 11 (mkLO false [] [] 0 (Some FConflict));
+   EAggStart; ELock [4] false false false 12 (ok_lock [4]); ELock [5] false false false 13 (mkLO false [5] [] 15 None);
    EAggRetry; ELock [4] false false false 16 (ok_lock []); EAggDone;
    ESet 3; ECommit (mkCO M2PC [3] [] [] CPrewriteFail);
    ERun 0; ERun 0; ERun 0].
@@ -395,7 +395,7 @@ Qed.
 
 (* ---- more non-vacuity: every event kind, every failure kind, every commit mode in well-formed runs
    that really hold locks and end clean ---- *)
-Definition fail_lock (ks : list key) (e : fail) : lock_out := mkLO false false ks [] 0 (Some e).
+Definition fail_lock (ks : list key) (e : fail) : lock_out := mkLO false ks [] 0 (Some e).
 (* 1PC success; deadlock / timeout / other failures; a Delete; a partial task run *)
 Definition sample_1pc : list ev :=
   [ELock [1; 2] false true false 10 (fail_lock [1] FDeadlock);
@@ -413,15 +413,15 @@ Proof. split; [wf_solve|]. vm_compute. auto. Qed.
    expiry of a previous-attempt lock forces the re-lock request; cancel *)
 Definition sample_async : list ev :=
   [EInsert 1; ELock [1] false false false 10 (fail_lock [] FExists);
-   EAggStart; ELock [2] true false true 11 (mkLO false false [] [2] 0 None);
+   EAggStart; ELock [2] true false true 11 (mkLO false [] [2] 0 None);
    ELock [3] true false false 12 (ok_lock [3]); EAggRetry;
-   ELock [3] true false false 13 (mkLO false true [3] [] 0 None);
+   ELock [3] true false false 13 (mkLO true [3] [] 0 None);
    EAggCancel; ELock [4] false false false 14 (ok_lock [4]); ESet 4;
    ECommit (mkCO MAsync [] [] [] COk); ERun 0; ERunSome 0 [4]; ERun 0].
 Example C06_sample_async :
   wf_run (init true) sample_async /\
-  snd (lock_keys_full [3] true false false 13 (mkLO false true [3] [] 0 None) (run (init true) (firstn 6 sample_async))) = [3] /\
-  snd (lock_keys_full [3] true false false 13 (mkLO false false [3] [] 0 None) (run (init true) (firstn 6 sample_async))) = [] /\
+  snd (lock_keys_full [3] true false false 13 (mkLO true [3] [] 0 None) (run (init true) (firstn 6 sample_async))) = [3] /\
+  snd (lock_keys_full [3] true false false 13 (mkLO false [3] [] 0 None) (run (init true) (firstn 6 sample_async))) = [] /\
   let s := run (init true) sample_async in valid s = false /\ tasks s = [] /\ store s = [].
 Proof. split; [wf_solve|]. vm_compute. auto. Qed.
 
@@ -448,9 +448,48 @@ Proof. split; [wf_solve|]. vm_compute. auto. Qed.
    locked whose lock the pending rollback releases.  Callers retry or cancel after a failed call. *)
 Definition skip_after_failed_relock : list ev :=
   [EAggStart; ELock [1] false false false 10 (ok_lock [1]); EAggRetry;
-   ELock [1] true false false 20 (mkLO false false [] [] 0 (Some FNoWait));
+   ELock [1] true false false 20 (mkLO false [] [] 0 (Some FNoWait));
    ELock [1] false false false 21 (ok_lock []); ERun 0].
 Example C06_note_skip_after_failed_relock :
   wf_run (init true) skip_after_failed_relock /\
   let s := run (init true) skip_after_failed_relock in in_cur s 1 = true /\ store s = [] /\ tasks s = [].
 Proof. split; [wf_solve|]. vm_compute. auto. Qed.
+
+(* the key-exists error LockKeys returns from its pre-loop, before any request, is COMPUTED by the model
+   ([early_exists]: an already-locked key that carries the insert flags and whose recorded existence says "exists";
+   compared with the client on every LockKeys call of the check).  Whenever it fires — in any run, whatever the store
+   answered before — the call sends nothing and changes nothing (beyond leaving a many-key aggressive attempt), and the
+   culprit is a key this transaction inserted and tracks as locked; a call naming no inserted key never fails early. *)
+Theorem C06_early_key_exists_meaning :
+  forall (p : bool) (evs : list ev) (ks : list key),
+  let s := run (init p) evs in
+  let s1 := exit_agg ks s in
+  early_exists s1 ks = true ->
+  (forall rv ce loie f o, lock_keys_full ks rv ce loie f o s = (s1, [])) /\
+  exists k, In k ks /\ (In (EInsert k) evs \/ In (EMark k) evs) /\
+            (In k (flags s1) \/ in_cur s1 k = true \/ in_prev s1 k = true).
+Proof. exact early_key_exists_meaning. Qed.
+Print Assumptions C06_early_key_exists_meaning.
+
+Theorem C06_no_early_key_exists_without_insert :
+  forall (p : bool) (evs : list ev) (ks : list key),
+  (forall k, In k ks -> ~ In (EInsert k) evs /\ ~ In (EMark k) evs) ->
+  early_exists (exit_agg ks (run (init p) evs)) ks = false.
+Proof. exact no_insert_no_early. Qed.
+Print Assumptions C06_no_early_key_exists_without_insert.
+
+(* d90-d95 of the check: plain lock then insert -> early error (the flag reads "exists" by default); existence checked
+   and absent -> no error; an aggressive-locking entry without returned values reads "not exists" until Done copies it
+   into the flags; a failed staged insert keeps its flags only over an older buffered value *)
+Example C06_early_key_exists_examples :
+  let E evs ks := early_exists (exit_agg ks (run (init true) evs)) ks in
+  E [ELock [1] false false false 10 (ok_lock [1]); EMark 1] [1] = true /\
+  E [ELock [1; 4] false true false 10 (mkLO false [1; 4] [4] 0 None); EMark 4; EMark 1] [4] = false /\
+  E [ELock [1; 4] false true false 10 (mkLO false [1; 4] [4] 0 None); EMark 4; EMark 1] [1] = true /\
+  E [EAggStart; ELock [1] false false false 10 (ok_lock [1]); EMark 1] [1] = false /\
+  E [EAggStart; ELock [1] false false false 10 (ok_lock [1]); EInsert 1; EAggDone; EMark 1] [1] = true /\
+  E [EAggStart; ELock [1] true false false 10 (ok_lock [1]); EMark 1] [1] = true /\
+  E [EMark 1; ELock [1] false false false 10 (fail_lock [] FExists); EUnmark 1; ELock [1] false false false 11 (ok_lock [1])] [1] = false /\
+  E [ESet 2; ELock [2] false false false 10 (ok_lock [2]); EMark 2; EUnmark 2] [2] = true /\
+  E [ELock [1] false false false 10 (ok_lock [1]); EMark 1; EUnmark 1] [1] = false.
+Proof. vm_compute. auto 12. Qed.
